@@ -2,6 +2,7 @@ package main
 
 import (
 	"fmt"
+	"math"
 	"strings"
 	"time"
 
@@ -51,10 +52,14 @@ func newStallTarget(r rng, kind string, nkeys int) *stallTarget {
 		t.loadNm = []string{"Get", "GetWithExpiration", "GetWithTTL"}
 		t.size = c.Count
 		// half of the entries never expire, half carry a long TTL: both kinds must be lock-free to read
+		// (and every fifth a TTL so long that call time + TTL overflows: "never" as well)
 		t.store = func(k int, v any) {
-			if k%2 == 0 {
+			switch {
+			case k%5 == 4:
+				c.Set(k, v, time.Duration(math.MaxInt64))
+			case k%2 == 0:
 				c.SetForever(k, v)
-			} else {
+			default:
 				c.Set(k, v, time.Hour)
 			}
 		}
